@@ -8,10 +8,14 @@
    2. C03_eval_*: the evaluator's operator cases are "evaluate left, then right, then apply
       the pure operator function".
    3. C03_arith_value: number x number arithmetic.
-   4. C03_eq_*, C03_in, C03_lt_strings_*: equality, membership, string order.
-   5. C03_bool, C03_cond_lazy.
-   6. C03_range*: the range operator.
-   7. C03_arith_ieee: see Proofs/F64Facts.v. *)
+   4. C03_eq_struct, C03_eq_equivalence, C03_in, C03_lt_strings, C03_lt_numbers: equality,
+      membership, order; 4b (end of file) C03_lt_codepoint: on valid UTF-8 the bytewise string
+      order is the code-point order (uses Proofs/Utf8Proofs.v).
+   5. C03_bool, C03_truthy_table, C03_cond_lazy_then / _else / C03_cond_fails.
+   6. C03_range, C03_range_items, C03_range_empty: the range operator.
+   7. IEEE-754 meaning of + - * / % (C03_arith_ieee, fmod_exact), exact integer ranges
+      (C03_range_exact): Proofs/F64Facts.v (Flocq).
+      String forms of & (C03_concat_value): Proofs/C10Proofs.v. *)
 From Coq Require Import ZArith Bool List Ascii String Lia ZifyBool.
 From JV.Base Require Import Bytes Utf8 F64 Res.
 From JV.Model Require Import Value Ops Eval.
@@ -1043,4 +1047,134 @@ Example C03_range_ex :
   range_result (Some (VNum fone)) (Some (VNum (fdiv (f_of_Z 5) (f_of_Z 2)))) = inr (EEval ErrNonIntegerRHS) /\
   range_result None (Some (VNum (fdiv (f_of_Z 5) (f_of_Z 2)))) = inr (EEval ErrNonIntegerRHS) /\
   range_result None (Some (VNum fone)) = inl None.
+Proof. vm_compute. repeat split. Qed.
+
+
+(* ------------------------------------------------------------------------------------ *)
+(* 4b. on valid UTF-8, bytewise order is code-point order                                *)
+(* ------------------------------------------------------------------------------------ *)
+From JV.Proofs Require Import Utf8Proofs.
+
+(* lexicographic < on code-point sequences *)
+Fixpoint cp_ltb (l1 l2 : list rune) : bool :=
+  match l1, l2 with
+  | _, [] => false
+  | [], _ :: _ => true
+  | x :: r1, y :: r2 => if (x <? y)%Z then true else if (y <? x)%Z then false else cp_ltb r1 r2
+  end.
+
+Lemma sltb_cons_same c a b : sltb (String c a) (String c b) = sltb a b.
+Proof. cbn [sltb]. now rewrite Z.ltb_irrefl. Qed.
+
+Lemma sltb_app_same p a b : sltb (p ++ a) (p ++ b) = sltb a b.
+Proof. induction p as [|c p IH]; [reflexivity|]. cbn [append]. now rewrite sltb_cons_same. Qed.
+
+Lemma sltb_cons_lt x y a b : (0 <= x < 256)%Z -> (0 <= y < 256)%Z -> (x < y)%Z ->
+  sltb (String (ascii_of_Z x) a) (String (ascii_of_Z y) b) = true.
+Proof.
+  intros Hx Hy L. cbn [sltb]. rewrite !byte_of_ascii_of_Z by assumption.
+  now replace (x <? y)%Z with true by lia.
+Qed.
+
+Lemma sltb_cons_eq x y a b : (0 <= x < 256)%Z -> x = y ->
+  sltb (String (ascii_of_Z x) a) (String (ascii_of_Z y) b) = sltb a b.
+Proof. intros _ ->. apply sltb_cons_same. Qed.
+
+(* one byte decides, or it is equal and the rest decides *)
+Lemma sltb_step x y a b : (0 <= x < 256)%Z -> (0 <= y < 256)%Z -> (x <= y)%Z ->
+  (x = y -> sltb a b = true) ->
+  sltb (String (ascii_of_Z x) a) (String (ascii_of_Z y) b) = true.
+Proof.
+  intros Hx Hy L H. destruct (Z.eq_dec x y) as [E|N].
+  - rewrite sltb_cons_eq by assumption. auto.
+  - apply sltb_cons_lt; lia.
+Qed.
+
+(* the encoding is strictly monotone, whatever follows *)
+Lemma encode_rune_lt r1 r2 s1 s2 :
+  valid_rune r1 = true -> valid_rune r2 = true -> (r1 < r2)%Z ->
+  sltb (encode_rune r1 ++ s1) (encode_rune r2 ++ s2) = true.
+Proof.
+  intros V1 V2 L. unfold encode_rune. rewrite V1, V2.
+  unfold valid_rune, MaxRune in V1, V2.
+  assert (B1 : (0 <= r1 <= 1114111)%Z) by lia. assert (B2 : (0 <= r2 <= 1114111)%Z) by lia.
+  clear V1 V2.
+  pose proof (Z.div_div r1 64 64 ltac:(lia) ltac:(lia)) as D1.
+  pose proof (Z.div_div r2 64 64 ltac:(lia) ltac:(lia)) as D2.
+  pose proof (Z.div_div r1 4096 64 ltac:(lia) ltac:(lia)) as D1'.
+  pose proof (Z.div_div r2 4096 64 ltac:(lia) ltac:(lia)) as D2'.
+  change (64 * 64)%Z with 4096%Z in *. change (4096 * 64)%Z with 262144%Z in *.
+  destruct (r1 <? 128)%Z eqn:A1; [|destruct (r1 <? 2048)%Z eqn:A2; [|destruct (r1 <? 65536)%Z eqn:A3]];
+  (destruct (r2 <? 128)%Z eqn:C1; [|destruct (r2 <? 2048)%Z eqn:C2; [|destruct (r2 <? 65536)%Z eqn:C3]]);
+    try lia; unfold string_of_bytes; cbn [map string_of_list append];
+    repeat (apply sltb_step; [lia | lia | lia | intro]); try lia;
+    try (apply sltb_cons_lt; lia).
+Qed.
+
+Lemma sltb_asym a b : sltb a b = true -> sltb b a = false.
+Proof. destruct C03_lt_strings as (_ & _ & H & _). apply H. Qed.
+
+Theorem sltb_string_of_runes : forall l1 l2,
+  valid_runes l1 -> valid_runes l2 ->
+  sltb (string_of_runes l1) (string_of_runes l2) = cp_ltb l1 l2.
+Proof.
+  induction l1 as [|x r1 IH]; intros [|y r2] V1 V2.
+  - reflexivity.
+  - rewrite string_of_runes_cons, string_of_runes_nil. cbn [cp_ltb].
+    pose proof (encode_rune_not_nil y) as N. destruct (encode_rune y); [congruence | reflexivity].
+  - rewrite string_of_runes_nil. cbn [cp_ltb]. now destruct (string_of_runes (x :: r1)).
+  - rewrite !string_of_runes_cons. cbn [cp_ltb].
+    inversion V1 as [|? ? Vx V1']; inversion V2 as [|? ? Vy V2']; subst.
+    destruct (Z.ltb_spec x y) as [L|G].
+    + now apply encode_rune_lt.
+    + destruct (Z.ltb_spec y x) as [L'|G'].
+      * apply sltb_asym. now apply encode_rune_lt.
+      * assert (x = y) by lia. subst y. rewrite sltb_app_same. now apply IH.
+Qed.
+
+(** < on two valid UTF-8 strings (the evaluator compares bytes) is the lexicographic order of
+    their code-point sequences. *)
+Theorem C03_lt_codepoint : forall a b,
+  valid_utf8 a = true -> valid_utf8 b = true ->
+  sltb a b = cp_ltb (runes a) (runes b).
+Proof.
+  intros a b Va Vb.
+  rewrite <- (encode_runes_inverse a Va) at 1. rewrite <- (encode_runes_inverse b Vb) at 1.
+  apply sltb_string_of_runes; now apply runes_valid.
+Qed.
+Print Assumptions C03_lt_codepoint.
+
+Example C03_lt_codepoint_ex :
+  (* U+FF5E (3 bytes) < U+1F600 (4 bytes): code-point order, where UTF-16 order would differ *)
+  let a := encode_rune 65374 in let b := encode_rune 128512 in
+  valid_utf8 a = true /\ valid_utf8 b = true /\ sltb a b = true /\ runes a = [65374%Z] /\
+  comparison_result CmpLt (Some (VStr a)) (Some (VStr b)) = Some (inl (Some (VBool true))).
+Proof. vm_compute. repeat split. Qed.
+
+(* ------------------------------------------------------------------------------------ *)
+(* examples on the evaluator itself (oracles that answer nothing)                        *)
+(* ------------------------------------------------------------------------------------ *)
+Definition ev0 := eval (fun _ => ""%string) (fun _ _ => None) (fun _ _ => None) (fun _ _ => None).
+Definition w0 := mkWorld [mkFrame None []].
+
+Example C03_cond_lazy_ex :
+  (* the branch not taken would panic (NPlaceholder) resp. run out of fuel: it is not evaluated *)
+  ev0 3 (NConditional (NBoolean true) (NNumber fone) (Some NPlaceholder)) None 0 w0 = Ok (Some (VNum fone)) w0 /\
+  ev0 3 (NConditional (NString "") NPlaceholder (Some (NNumber fone))) None 0 w0 = Ok (Some (VNum fone)) w0 /\
+  ev0 3 (NConditional (NName "nothing" false) NPlaceholder None) None 0 w0 = Ok None w0 /\
+  ev0 2 (NConditional (NBoolean true) (NNumber fone)
+           (Some (NNumeric NumAdd (NNumeric NumAdd (NNumber fone) (NNumber fone)) (NNumber fone)))) None 0 w0
+    = Ok (Some (VNum fone)) w0.
+Proof. vm_compute. repeat split. Qed.
+
+Example C03_eval_binop_ex :
+  ev0 3 (NNumeric NumAdd (NString "a") (NBoolean true)) None 0 w0 = Err (EEval ErrNonNumberLHS) /\
+  ev0 3 (NNumeric NumAdd (NNumber fone) (NBoolean true)) None 0 w0 = Err (EEval ErrNonNumberRHS) /\
+  ev0 3 (NNumeric NumAdd (NName "nothing" false) (NNumber fone)) None 0 w0 = Ok None w0 /\
+  ev0 3 (NComparison CmpLt (NName "nothing" false) (NNumber fone)) None 0 w0 = Ok (Some (VBool false)) w0 /\
+  ev0 3 (NComparison CmpLt (NString "a") (NNumber fone)) None 0 w0 = Err (EEval ErrTypeMismatch) /\
+  ev0 3 (NConcat (NName "nothing" false) (NString "x")) None 0 w0 = Ok (Some (VStr "x")) w0 /\
+  ev0 3 (NRange (NName "nothing" false) (NNumber fone)) None 0 w0 = Ok None w0 /\
+  ev0 3 (NNegation (NName "nothing" false)) None 0 w0 = Ok None w0 /\
+  ev0 3 (NBoolOp BoolOr (NName "nothing" false) (NNumber fone)) None 0 w0 = Ok (Some (VBool true)) w0.
 Proof. vm_compute. repeat split. Qed.
